@@ -34,6 +34,20 @@ Theorem C15_der_decode_total : forall data, der_decode data <> Err OutOfFuel.
 Proof. exact der_decode_total. Qed.
 Print Assumptions C15_der_decode_total.
 
+(* every failure of the decoder is reported in one class, ASN1DecodeError (code of record after
+   5ce3b74), for every byte string *)
+Theorem C15_der_decode_error_class : forall data e, der_decode data = Err e -> e = DecodeErr.
+Proof. exact der_decode_error_class. Qed.
+Print Assumptions C15_der_decode_error_class.
+
+(* record of the repaired defect: the class methods themselves report a BIT STRING with non-zero
+   unused bits as ASN1EncodeError and an invalid UTF8String as UnicodeDecodeError; before 5ce3b74
+   these classes escaped from der_decode *)
+Theorem C15_der_decode_error_class_old_refuted :
+  dec_primitive_old 3 false [1; 1] = Err EncodeErr /\ dec_primitive_old 12 false [195; 40] = Err UnicodeErr.
+Proof. exact old_error_classes. Qed.
+Print Assumptions C15_der_decode_error_class_old_refuted.
+
 (* deviation: a tag number of exactly 31 is emitted in the short form and cannot be decoded *)
 Theorem C15_der_tag31_refuted : exists v, enc_ok v = true /\ der_decode (enc v) = Err DecodeErr.
 Proof. exact tag31_not_roundtrip. Qed.
